@@ -2,10 +2,29 @@
 """Regenerates MANIFEST.json from the table below (kept in one place so it stays valid)."""
 import json, os
 ROOT = os.path.dirname(os.path.abspath(__file__))
+def _c(technique, text, note, ref):
+    return dict(technique=technique, text=text, note=note, ref=ref)
+
+BOUNDED = 'bounded exhaustive enumeration of inputs on the real code vs a reference model'
+SCHED = 'stateless deviation-bounded exploration of set-iteration orders (AST-instrumented real code) + bounded exhaustive inputs vs a reference model'
 CHECKS = {
- 'C01': dict(technique='bounded exhaustive enumeration of automata x words on the real code, judged by a run-search reference model',
-             text='All labelled DFAs/NFAs inside the stated bounds (incl. 3 epsilon spellings, 3 delta encodings, epsilon chains) x all words up to L are executed on the real acceptance/closure functions and compared with a (state,position) run-search model. Complete inside the bounds; the algorithms are structural, so small scopes exercise every branch.',
-             note='Trusted: the 60-line reference model mc/oracles/fa.py (cross-checked by mc.selftest); bounds as reported in the evidence; NFA delta assumed total (defaultdict or full dict).', ref='4/C01'),
+ 'C01': _c(BOUNDED, 'All labelled DFAs/NFAs inside the stated bounds (3 epsilon spellings, 3 delta encodings, epsilon chains) x all words up to L are executed on the real acceptance/closure functions and compared with a (state,position) run-search model. Complete inside the bounds; the algorithms are structural, so small scopes exercise every branch.',
+            'Trusted: mc/oracles/fa.py (cross-checked by mc.selftest); bounds as reported in the evidence; NFA delta assumed total (defaultdict or full dict).', '4/C01'),
+ 'C02': _c(BOUNDED + ' and enumeration of configurations (closure limits, step budgets)', 'Every object of the six formalisms inside the bounds x every bound n (0 included) x every listed PDA closure limit / TM budget: the enumerator is compared with the acceptance test on all of Sigma^<=n, exactly as the property is worded; generate_language is compared with each specific enumerator; the PDA premise is decided by explicit configuration search.',
+            'Trusted: the acceptance tests (judged separately by C01/C05/C07/C09/C11), the PDA configuration oracle for the premise.', '4/C02'),
+ 'C03': _c(BOUNDED + '; language equality decided exactly by product-state exploration', 'Every labelled NFA in the bounds is determinised by the real code; the result is re-validated by oracle code, compared exactly (all word lengths) with a reference subset construction, checked for reachability and for the meaning of its initial state.',
+            'Trusted: mc/oracles/fa.py; naming clause evaluated only for names in the documented set notation.', '4/C03'),
+ 'C04': _c(SCHED, 'All DFAs up to 4 states (5 for one letter; DFA(4,2) strided in quick, complete in thorough) x three minimisers under CPython order, and all DFAs up to 3 states under every execution with <= d deviations from a canonical global set order. Oracle: exact equivalence, Moore partition, state-count window, input snapshot.',
+            'Trusted: fa oracle; schedules are global element orders (DESIGN 3.4); d and caps reported.', '4/C04'),
+ 'C05': _c(BOUNDED, 'All regular expression trees up to m nodes x all words up to L against Brzozowski derivatives; the simplifier against exact Glushkov equivalence and both size measures.', 'Trusted: mc/oracles/rx.py (derivatives cross-checked against Glushkov automata in the self-test).', '4/C05'),
+ 'C06': _c(SCHED, 'regexp_to_nfa on all trees up to m nodes vs the Glushkov automaton (exact); dfa_to_regexp on all small DFAs under every state-elimination order reachable with <= d set-order deviations, result compared exactly with the DFA.', 'Trusted: rx and fa oracles; global-order schedules.', '4/C06'),
+ 'C07': _c(BOUNDED, 'cfg_accepts_word on all two-variable grammars (epsilon, unit, cyclic, useless rules included) x all words up to L vs a least-fixpoint language; every CYK cell of every small CNF grammar x word vs a span fixpoint.', 'Trusted: mc/oracles/cfg.py (two fixpoints cross-checked).', '4/C07'),
+ 'C08': _c(SCHED, 'cfg_to_chomsky, the five public phases chained and the exercise path cfg_apply_chomsky on all two-variable grammars, a long-rule family and 24..28-variable grammars: validity, CNF / per-phase postconditions, freshness of introduced variables, bounded language equality by least fixpoint, input snapshot; conversion also under set-order deviations.', 'CFG equivalence is undecidable: languages compared on all words up to the stated length. Trusted: cfg oracle.', '4/C08'),
+ 'C09': _c(BOUNDED + ' and enumeration of the closure limit', 'Every small PDA x word x limit in {1,2,3,5,8,(13,1000)}: soundness against an exact saturation model for every limit; completeness exactly when explicit configuration search shows every closure on the way fits the limit.', 'Trusted: mc/oracles/pda.py (saturation vs explicit search cross-checked in the self-test and at run time).', '4/C09'),
+ 'C10': _c(BOUNDED, 'Every small PDA (incl. F empty / several accepting states, stack symbols and state names colliding with the markers the constructions introduce) through the three normal forms and PDA->CFG: validity, structural promise, bounded language equality with exact references on both sides, input snapshot.', 'Languages compared on all words up to the stated length. Trusted: pda and cfg oracles.', '4/C10'),
+ 'C11': _c(BOUNDED + ' and enumeration of step budgets', 'Every TM with <= 2 working states / <= 3 tape symbols x word x budget 0..8: verdict and configuration sequence against a Sipser step function; monotonicity of decided verdicts.', 'Head position after an implicit reject is unspecified and not compared. Trusted: mc/oracles/tm.py.', '4/C11'),
+ 'C14': _c(BOUNDED + '; language equality decided exactly', 'All pairs of small DFAs through the three products, all small DFAs through complement / reverse / no_prefix / no_extend / remove_unreachable, all partial DFAs through totalisation, each compared exactly with an oracle-built reference construction; finite-language helpers on all 128 languages over {a,b}^<=2 (and all pairs).', 'Trusted: fa oracle.', '4/C14'),
+ 'C20': _c(SCHED + ' with a loop-iteration budget as termination oracle', 'All ordered pairs of small DFAs (second operand renamed or with identical names) x both routines x CPython order + every <= d deviation: answer must equal a synchronous-BFS bijection decider and arrive within the step budget.', 'Trusted: fa.iso (cross-checked against brute-force permutation search); termination = result within 20 000 loop iterations.', '4/C20'),
 }
 NOT_YET = {}
 def main():
